@@ -1006,6 +1006,10 @@ vharness! {
     fn sh3_streaming_gate() unwind(6) {
         vio::with_io(move |io| {
             let sh = new_shared(io);
+            sh.cap.set(8);
+            let busy = nz(vk::any_u16());
+            let busy_rx = push_out(&sh, busy, K::Publish);
+            std::mem::forget(busy_rx);
             // a chunk with nothing owed is refused
             assert!(matches!(sh.encode_publish_payload(chunk_of(1)), Err(EncodeError::UnexpectedPayload)));
             assert!(io.bytes_written() == 0);
@@ -1024,6 +1028,14 @@ vharness! {
                 let before = io.bytes_written();
                 assert!(matches!(sh.encode_publish(q, None), Err(EncodeError::ExpectPayload)), "another PUBLISH accepted inside a streamed payload");
                 assert!(io.bytes_written() == before && io.torn() == 0);
+                // neither may an awaiting send - with an identifier that is in use or a fresh one - get through,
+                // and its failure must leave the payload bookkeeping alone
+                let wid = if vk::any_bool() { busy } else { num::NonZeroU16::new(busy.get() ^ 1).unwrap_or(busy) };
+                let r = sh.wait_publish_response(wid, AckType::Publish, { let mut x = pub3(0); x.qos = QoS::AtLeastOnce; x.packet_id = Some(busy); x }, None);
+                assert!(r.is_err(), "an awaiting PUBLISH was accepted inside a streamed payload");
+                std::mem::forget(r);
+                assert!(io.bytes_written() == before && io.torn() == 0);
+                assert!(sh.is_streaming(), "a refused send wiped the streamed-payload state");
                 let n = vk::any_len(3);
                 let r = sh.encode_publish_payload(chunk_of(n));
                 if n as u32 > owed {
